@@ -391,6 +391,17 @@ def strat_mxp(env, cfg):
         a = draw(g_operand(W, m, min(SIZE - 2, nd(m, W) + 2)))
         if op == "bn_mxp_dig":
             e = draw(ints.digit(W))
+        elif draw(one_in(14)):
+            # exponent beyond the configured precision (any bn the object can hold is an admissible exponent; the
+            # window tables and recoding buffers are sized from constants): short modulus keeps it cheap
+            m = draw(g_modulus(W, max(1, min(maxd, 128 // W)), odd=True))
+            a = draw(g_operand(W, m, nd(m, W) + 1))
+            top = W * (SIZE - 1)
+            eb = draw(st.one_of(st.sampled_from([W * DIGS - 1, W * DIGS, W * DIGS + 1, top - 1, top]),
+                                st.integers(W * DIGS - 8, top)))
+            e = draw(ints.uniform(1 << (eb - 1), (1 << eb) - 1))
+            if draw(one_in(6)):
+                e = -e
         else:
             e = draw(g_exponent(W, m, min(W * DIGS, m.bit_length() + 2 * W + 64)))
         return dict(op=op, a=a, e=e, m=m, alias=draw(st.sampled_from([0, 0, 0, 1, 2])), stale=draw(ints.g_int(W, SIZE)),
@@ -426,6 +437,8 @@ def run_mxp(env, cfg, case):
     res = run_prog(env, cfg, p)
     c = res.calls[0]
     labels = ["op:" + op, "alias:%d" % alias, "m:" + bitclass(m), "e:" + bitclass(e)]
+    if abs(e).bit_length() > W * I["DIGS"]:
+        labels.append("e:beyond-precision")
     labels.append("e:%s" % ("zero" if e == 0 else "negative" if e < 0 else "longer-than-m" if e.bit_length() > m.bit_length() else "positive"))
     labels.append("a:%s" % ("zero" if a == 0 else "negative" if a < 0 else ">=m" if a >= m else "reduced"))
     what = "%s(alias=%d)" % (op, alias)
